@@ -588,8 +588,45 @@ def check_call(inp):
     return None
 
 
+def mk_chord_opt(d):
+    """like mk_chord; 'ton': None = a chord written without a tonality (the bare roman numeral, C major is meant)"""
+    from musiclang import Chord
+    if d['ton'] is None:
+        return Chord(int(d['elem']), extension=d['ext'], tonality=None, octave=int(d['oct']))
+    return mk_chord(d)
+
+
+def check_reuse(inp):
+    """a sequence of modulations that all use ONE tonality object (key = II.M; a % key; b % key; score % key): every
+    result must be what the same modulation gives with a freshly written tonality, i.e. each chord moves by exactly
+    that tonality's interval however often the operand was used before (seed C01-5 folded the chord octave of a
+    tonality-less chord into the caller's tonality object)"""
+    from musiclang import Score
+    from musiclang.library import s0, s2, h3, c1
+    t = mk_ton(inp['t'])
+    chords = [mk_chord_opt(d) for d in inp['chords']]
+    notes = [s0, s2.o(1), h3, c1]
+
+    def fields(r):
+        return (int(r.element), str(r.extension), int(r.octave), r.tonality.abs_degree, r.tonality.mode,
+                [py_res(lambda: int(r.to_pitch(n))) for n in notes])
+    got, exp = [], []
+    for i, c in enumerate(chords):
+        if inp['how'][i % len(inp['how'])] == 'mod':
+            got.append(fields(c % t))
+        else:
+            got.append(fields(c.modulate(t)))
+        exp.append(fields(mk_chord_opt(inp['chords'][i]) % mk_ton(inp['t'])))
+    parts = [c(piano__0=s0 + s2) for c in chords]
+    got.append([fields(r) for r in (Score(parts) % t).chords])
+    exp.append([fields(mk_chord_opt(d)(piano__0=s0 + s2) % mk_ton(inp['t'])) for d in inp['chords']])
+    got.append(tfields(t))
+    exp.append(tfields(mk_ton(inp['t'])))
+    return None if got == exp else {'observed': got, 'expected': exp}
+
+
 ORACLES = {'ton': check_ton, 'mod_mod': check_mod_mod, 'pitch': check_pitch, 'render': check_render,
-           'call': check_call}
+           'call': check_call, 'reuse': check_reuse}
 
 
 def ton_sig(r):
@@ -665,6 +702,20 @@ def oracle(ctx):
         c = rand_bare_chord(rng, wide=(i % 4 == 0))
         inp = {'chord': chord_inp(c), 'a': ton_inp(rand_ton(rng, i % 3 == 0)), 'b': ton_inp(rand_ton(rng, i % 3 == 0))}
         run(ctx, 'mod_mod', inp, 'mod_mod', ['mod_mod', f'coct={int(c.octave)}'])
+
+    # ---- one tonality object used by a sequence of modulations (tonality-less chords with a chord octave included)
+    for i in range(ctx.n(250, 5000)):
+        cs = []
+        for _ in range(rng.randint(2, 4)):
+            d = chord_inp(rand_bare_chord(rng))
+            if rng.random() < 0.4:
+                d['ton'] = None
+                d['ext'] = rng.choice(gen.PLAIN_INVERTIBLE)
+            cs.append(d)
+        inp = {'chords': cs, 't': ton_inp(rand_ton(rng, octs=(-2, 2))), 'how': [rng.choice(['mod', 'mod', 'modulate']) for _ in cs]}
+        bare_oct = any(d['ton'] is None and d['oct'] != 0 for d in cs)
+        run(ctx, 'reuse', inp, 'reuse:' + ('tonality-less-chord-with-octave' if bare_oct else 'shared-tonality'),
+            ['reuse', f'bare_oct={bare_oct}'])
 
     # ---- pitch level: every mode x degree at least once per op, all kinds
     chords = []
